@@ -12,6 +12,7 @@ STORE_FAMILIES = {
 }
 # judge property ids that decide each property at store level
 JUDGE_PROPS = {p: [p] for p in STORE_FAMILIES}
+JUDGE_PROPS["C11"] = ["C11", "C04"]   # "retrievable from t+d onwards" is judged by the wake-up rule on timed stores
 
 ASSUME = [
     "theorems are about the hand-written Lean models; the models are tied to the code by sampled lock-step runs",
